@@ -241,7 +241,7 @@ def _named_sets(ctx):
     from .harnesses import meta_key_of, meta_key_tuple
     case = ctx.case
     kind = case['kind']
-    bv, av = ctx.view, ctx.after_view
+    bv, av = ctx.lib_view, ctx.after_view
     db, da, moved = set(), set(), []
 
     def real(ids):
@@ -278,7 +278,7 @@ def _named_sets(ctx):
             elif b is not None:
                 moved.append((f'story {m}', b.elem, None))
     elif ctx.level == 'item':
-        sb = ctx.addressed
+        sb = bv.story(ctx.addressed.id) if ctx.addressed is not None else None
         if sb is not None:
             sa = av.story(sb.id)
             before_ids = set(sb.item_ids)
@@ -344,7 +344,7 @@ def mon_frame(ctx, res):
         yield (f'{kind}:{note}:unreadable-after', f'{_case_str(case)}: running order unreadable / without roCreate after the merge')
         return
     db, da, moved = _named_sets(ctx)
-    fb = _frame(ctx.view.root, db)
+    fb = _frame(ctx.lib_view.root, db)
     fa = _frame(av.root, da)
     res.extra['frames_compared'] += 1
     if db or da:
